@@ -20,6 +20,15 @@ def main():
             return
         a, j = n.get("alloc", 0), n.get("designs", 0)
         junk = [{"k": i, "v": [i] * 3} for i in range(a)]
+        if n.get("arith"):
+            # unrelated earlier number crunching with prefixed numbers (long exact products and sums)
+            from decimal import Decimal
+            from hdl21.prefix import Prefix, Prefixed
+            x = Prefixed(number=Decimal("1234567890123456789.0123456789"), prefix=Prefix(-9))
+            for i in range(n["arith"]):
+                x = x * Prefixed(number=Decimal("1.000000000000000000001"), prefix=Prefix(3)) + Prefixed(number=Decimal(i + 1), prefix=Prefix(-24))
+                abs(-x)
+            keep.append(x)
         if n.get("keep"):
             keep.append(junk)
         for q in range(j):
@@ -129,9 +138,36 @@ def main():
             top.add(G(tags=frozenset(["alpha", "beta", "gamma", "delta", "epsilon", "zeta"]))(), name="a")
             top.add(G(tags=frozenset(["vdd", "vss", "bias"]), n=2)(), name="b")
             return top
+        if k == 7:
+            # a generator parameter that is a set of sets (members only partially ordered)
+            import typing
+
+            @h.paramclass
+            class ShapeGroups:
+                groups = h.Param(dtype=typing.FrozenSet[typing.FrozenSet[str]], desc="groups")
+
+            def ShapeGrouped(p: ShapeGroups) -> h.Module:
+                m = h.Module()
+                m.add(h.Signal(name="s", width=len(p.groups)))
+                return m
+            G = h.generator(ShapeGrouped)
+            top = h.Module(name="ShapeSetOfSets")
+            top.add(G(groups=frozenset([frozenset(["a", "b"]), frozenset(["b", "c"]), frozenset(["c", "d", "e"]), frozenset(["x"]),
+                                        frozenset(["a", "e"]), frozenset(["q", "r", "s"])]))(), name="a")
+            return top
+        if k == 8:
+            # parameter values that come out of inexact prefixed arithmetic (a non-terminating quotient, a power)
+            from hdl21.prefix import Prefix, Prefixed
+            top = h.Module(name="ShapeQuotient")
+            top.a, top.b = h.Signals(2)
+            r = Prefixed(number=Decimal("1"), prefix=Prefix(3)) / 3
+            c = Prefixed(number=Decimal("7"), prefix=Prefix(-12)) / Prefixed(number=Decimal("9"), prefix=Prefix(0))
+            top.add(h.R(r=r)(p=top.a, n=top.b), name="r")
+            top.add(h.C(c=c)(p=top.a, n=top.b), name="c")
+            return top
         raise ValueError(k)
 
-    NSHAPES = 7
+    NSHAPES = 9
     stats = {}
     items = job["items"]
     drop = job.get("drop", False)  # earlier designs are discarded and collected, so later objects re-use their addresses
